@@ -121,24 +121,26 @@ fn obs_regex(re: &regex::Regex, t: &str, names: &[String]) -> Obs {
 fn obs_fancy(re: &fancy_regex::Regex, t: &str, names: &[String]) -> Result<Obs, fancy_regex::Error> {
     use std::borrow::Cow;
     let mut o = Obs::default();
+    // (an iterator of the crate that never ends must not hang the monitor)
+    let cap = t.chars().count() + 3;
     o.is_match = re.is_match(t)?;
     o.find = re.find(t)?.map(|m| (m.start(), m.end()));
     if let Some(c) = re.captures(t)? {
         o.named = names.iter().map(|n| c.name(n).map(|m| (m.start(), m.end()))).collect();
         o.caps = Some(caps_of(&c));
     }
-    for m in re.find_iter(t).take(64) {
+    for m in re.find_iter(t).take(cap) {
         o.find_iter.push(span_of(&m?));
     }
-    for c in re.captures_iter(t).take(64) {
+    for c in re.captures_iter(t).take(cap) {
         o.caps_iter.push(caps_of(&c?));
     }
-    for s in re.split(t).take(64) {
+    for s in re.split(t).take(cap) {
         o.split.push(s?.to_string());
     }
     for n in 0..4 {
         let mut v = vec![];
-        for s in re.splitn(t, n).take(64) {
+        for s in re.splitn(t, n).take(cap) {
             v.push(s?.to_string());
         }
         o.splitn.push(v);
@@ -256,7 +258,53 @@ pub fn run(ctx: &Ctx) -> Outcome {
         }
     }
     let texts = gen::texts(&["a", "A", "b", " ", "\n", "é", "-"], 3);
-    let acc = par_run(&patterns, true, Some(2_000_000), |_, p, acc| {
+    // work items: (pattern, index of its text set); set 0 = the common texts
+    let mut text_sets: Vec<Vec<String>> = vec![texts.clone()];
+    let mut items: Vec<(Node, usize)> = patterns.into_iter().map(|p| (p, 0)).collect();
+    // (a) letters whose case fold has another UTF-8 length (k / KELVIN SIGN, s / LONG S), with and
+    // without (?i), next to word boundaries (VM route) and alone (wrapped route)
+    {
+        let fold_atoms = vec![
+            Node::lit("k"), Node::lit("s"), Node::lit("K"), Node::lit("\u{212a}"), Node::lit("\u{17f}"), Node::lit("ks"), Node::class("[ks]"), Node::class("\\w"),
+            Assert(A::WordB), Assert(A::NotWordB), Assert(A::WordEnd), Flags("i".into(), "".into(), None), Any(false),
+        ];
+        let mut g2 = Gen::with_atoms(fold_atoms, vec![(0, Some(1), Mode::Greedy), (1, None, Mode::Greedy), (2, Some(2), Mode::Greedy), (0, None, Mode::Lazy)], false, false);
+        g2.common = true;
+        let fold = g2.upto(3);
+        text_sets.push(gen::texts(&["k", "K", "\u{212a}", "s", "\u{17f}", " "], 3));
+        let set = text_sets.len() - 1;
+        for p in fold {
+            // the flag in front of everything, and scoped around the whole pattern
+            items.push((Concat(vec![Flags("i".into(), "".into(), None), p.clone()]), set));
+            items.push((p, set));
+        }
+    }
+    let n_fold = items.iter().filter(|(_, s)| *s != 0).count();
+    // (b) counted repeats with bounds of two to four digits, texts around the bound
+    let n_big;
+    {
+        let fam = gen::big_count_family(ctx.tier.pick(1100, 1100));
+        n_big = fam.len();
+        for (p, t) in fam {
+            // only the members written in the common syntax
+            if !p.any(&|n| matches!(n, Look(..) | Backref(_) | Atomic(_))) {
+                text_sets.push(t);
+                items.push((p, text_sets.len() - 1));
+            }
+        }
+    }
+    // (c) wide match state: 3-8 groups in a counted loop next to a word boundary (VM route)
+    let n_wide;
+    {
+        let fam = gen::wide_group_family(ctx.seed, ctx.tier.pick(600, 6_000), false);
+        n_wide = fam.len();
+        for (p, t) in fam {
+            text_sets.push(t);
+            items.push((p, text_sets.len() - 1));
+        }
+    }
+    let acc = par_run(&items, true, Some(20_000_000), |_, (p, set), acc| {
+        let texts = &text_sets[*set];
         let s = p.print();
         let fr = compile(&s);
         let rr = catch_unwind(AssertUnwindSafe(|| regex::Regex::new(&s)));
@@ -286,7 +334,7 @@ pub fn run(ctx: &Ctx) -> Outcome {
         let (fl, fx) = (class_fl(p), class_fx(p));
         let known_id = if f1 { Some("F1") } else if fl { Some("FL") } else if fx { Some("FX") } else { None }.filter(|id| ctx.known.listed("C04", id));
         let mut any_match = false;
-        for t in &texts {
+        for t in texts {
             acc.evals += 1;
             let want = obs_regex(&rre, t, &names);
             let got = guard(|| obs_fancy(&fre, t, &names));
@@ -324,7 +372,7 @@ pub fn run(ctx: &Ctx) -> Outcome {
     }
     let mut out = Outcome::new(acc);
     out.distinct_nontrivial = out.acc.distinct;
-    out.rule = format!("{} over literals a A b é space -, . [ab] [^a] [a ] [a\\-b] [+\\-.] [\\]a\\^] [^\\s\\d] [[:alpha:]&&[^b]] [\\x61-b] \\w \\s \\d, ^ $ (?m:^) (?m:$) \\b \\B \\< \\>, groups, named groups, scoped and inline flags i s m x U -i, greedy/lazy quantifiers; a pattern either crate rejects is counted and skipped; every remaining pattern x all {} texts over {{a,A,b,space,\\n,é,-}} up to length 3 x is_match, find, captures (+names), find_iter, captures_iter, split, splitn(0..3), replacen(0..2)/replace/replace_all with 7 templates, NoExpand and a closure. Non-trivial: a pattern with a word-boundary assertion (VM route) or a flag group that matched at least one text.", describe, texts.len());
+    out.rule = format!("{} over literals a A b é space -, . [ab] [^a] [a ] [a\\-b] [+\\-.] [\\]a\\^] [^\\s\\d] [[:alpha:]&&[^b]] [\\x61-b] \\w \\s \\d, ^ $ (?m:^) (?m:$) \\b \\B \\< \\>, groups, named groups, scoped and inline flags i s m x U -i, greedy/lazy quantifiers; a pattern either crate rejects is counted and skipped; every remaining pattern x all {} texts over {{a,A,b,space,\\n,é,-}} up to length 3 x is_match, find, captures (+names), find_iter, captures_iter, split, splitn(0..3), replacen(0..2)/replace/replace_all with 7 templates, NoExpand and a closure. Plus {} patterns of <= 3 nodes over k s K KELVIN-SIGN LONG-S [ks] \\w \\b \\B \\> (?i) (with and without a leading (?i)) x all texts over those letters up to length 3, and the common-syntax members of {} counted-repeat patterns with bounds 10-1100 x texts around the bound, and {} seeded patterns with 3-8 groups in a counted loop next to \\b / \\B with a failing tail and a fallback alternative. Non-trivial: a pattern with a word-boundary assertion (VM route) or a flag group that matched at least one text.", describe, texts.len(), n_fold, n_big, n_wide);
     out.assumptions = vec!["the regex crate is the oracle; both crates share regex-automata, so a fault inside it is invisible here".into()];
     let (vm, wr) = (out.acc.get("route:vm"), out.acc.get("route:wrapped"));
     out.extra = json!({"routes": {"vm": vm, "wrapped": wr}});
